@@ -2,7 +2,7 @@
    Every function mentioned is GENERATED from the current source: kernels of energy.py (gen/EnergyGen.v) and all the places where
    determinants.py / iterative.py create determinants (gen/DetsGen.v, as lists of emitted (owner, kind, partner, value) events). *)
 From Coq Require Import Reals List Bool.
-From V Require Import Num VecGen EnergyGen DetsGen SignProofs.
+From V Require Import Num VecGen EnergyGen DetsGen Inventory_gen SignProofs.
 Import ListNotations.
 Open Scope R_scope.
 
@@ -80,4 +80,7 @@ Theorem C16_iterative_acid_base_pair : forall (o1 o2 : iter R) pr hb co a0 a1,
                    (ev_kind e = 2 -> (ev_owner e = 1 -> ev_value e = iter_q o1 * co) /\ (ev_owner e = 2 -> ev_value e = iter_q o2 * co))) evs /\
   (length (filter (fun e => Reqb (ev_kind e) 2) evs) = 0%nat \/ length (filter (fun e => Reqb (ev_kind e) 2) evs) = 2%nat).
 Proof. exact iterative_ion_events. Qed.
+(* every pair of group types accepted by check_exceptions reaches the function named after that pair, symmetrically in the two types *)
+Theorem C16_exception_dispatch_consistent : forallb dispatch_row_ok Inventory_gen.exception_dispatch = true /\ List.length Inventory_gen.exception_dispatch = 10%nat.
+Proof. exact dispatch_consistent. Qed.
 Print Assumptions C16_iterative_acid_base_pair.
